@@ -146,15 +146,30 @@ type evalCtx struct {
 	cur  map[string]string
 	old  map[string]string
 	qvars []string // SMT bound variables in scope
+	mode  int      // +1: the formula is used (assumed), -1: it has to be proved, 0: unknown polarity
+	wf    *[]string // type facts of values loaded under the innermost binder
 }
 
-func (t *tr) evalBool(e ast.Expr, env *senv, cur, old map[string]string) (s string, err error) {
+// evalAssume / evalGoal: the formula will be assumed / has to be proved. The difference only matters for the type facts of
+// values loaded under a quantifier (valid facts about typed memory): where the solver uses the quantified formula they
+// are added as conjuncts, where it has to prove it they are added as hypotheses.
+func (t *tr) evalAssume(e ast.Expr, env *senv, cur, old map[string]string) (string, error) {
+	return t.evalBoolMode(e, env, cur, old, 1)
+}
+func (t *tr) evalGoal(e ast.Expr, env *senv, cur, old map[string]string) (string, error) {
+	return t.evalBoolMode(e, env, cur, old, -1)
+}
+func (t *tr) evalBool(e ast.Expr, env *senv, cur, old map[string]string) (string, error) {
+	return t.evalBoolMode(e, env, cur, old, 0)
+}
+
+func (t *tr) evalBoolMode(e ast.Expr, env *senv, cur, old map[string]string, mode int) (s string, err error) {
 	defer func() {
 		if r := recover(); r != nil {
 			err = fmt.Errorf("%v", r)
 		}
 	}()
-	c := &evalCtx{t: t, env: env, cur: cur, old: old}
+	c := &evalCtx{t: t, env: env, cur: cur, old: old, mode: mode}
 	v := c.eval(e)
 	if v.sort != "bool" {
 		return "", fmt.Errorf("expression %s is not boolean (sort %q)", types.ExprString(e), v.sort)
@@ -193,6 +208,10 @@ func (c *evalCtx) rv(v *sv) []string {
 			if !c.t.specFacts[terms[0]] {
 				c.t.specFacts[terms[0]] = true
 				c.t.typeFacts("true", terms[0], v.ty)
+			}
+		} else if c.env.inQuant && len(terms) == 1 && c.wf != nil {
+			if f := c.t.typeFactTerm(terms[0], v.ty); f != "" {
+				*c.wf = append(*c.wf, f)
 			}
 		}
 		return terms
@@ -257,7 +276,9 @@ func (c *evalCtx) eval(e ast.Expr) *sv {
 	case *ast.UnaryExpr:
 		switch x.Op {
 		case token.NOT:
-			return boolSV("(not " + c.rv1(c.eval(x.X)) + ")")
+			nc := *c
+			nc.mode = -c.mode
+			return boolSV("(not " + nc.rv1(nc.eval(x.X)) + ")")
 		case token.SUB:
 			v := c.eval(x.X)
 			if v.sort == "f64" {
@@ -628,6 +649,11 @@ func (c *evalCtx) binary(x *ast.BinaryExpr) *sv {
 		}
 		return boolSV(fmt.Sprintf("(%s %s %s)", op, a, b))
 	}
+	if x.Op == token.EQL || x.Op == token.NEQ {
+		nc := *c
+		nc.mode = 0
+		c = &nc
+	}
 	l, r := c.eval(x.X), c.eval(x.Y)
 	switch x.Op {
 	case token.EQL, token.NEQ:
@@ -731,10 +757,14 @@ func (c *evalCtx) call(x *ast.CallExpr) *sv {
 		return v
 	case "implies":
 		need(2)
-		return boolSV(fmt.Sprintf("(=> %s %s)", c.rv1(c.eval(args[0])), c.rv1(c.eval(args[1]))))
+		nc := *c
+		nc.mode = -c.mode
+		return boolSV(fmt.Sprintf("(=> %s %s)", nc.rv1(nc.eval(args[0])), c.rv1(c.eval(args[1]))))
 	case "iff":
 		need(2)
-		return boolSV(fmt.Sprintf("(= %s %s)", c.rv1(c.eval(args[0])), c.rv1(c.eval(args[1]))))
+		nc := *c
+		nc.mode = 0
+		return boolSV(fmt.Sprintf("(= %s %s)", nc.rv1(nc.eval(args[0])), nc.rv1(nc.eval(args[1]))))
 	case "ite":
 		need(3)
 		cnd := c.rv1(c.eval(args[0]))
@@ -835,6 +865,38 @@ func (c *evalCtx) call(x *ast.CallExpr) *sv {
 			r.ty = c.typeOfArg(args[1])
 		}
 		return r
+	case "loopidx":
+		// loopidx(k): number of completed iterations of range loop k (for an enclosing loop: the index of its current element)
+		need(1)
+		k, err := strconv.Atoi(types.ExprString(args[0]))
+		if err != nil {
+			c.fail("loopidx(k) needs a literal loop ordinal")
+		}
+		for hb, ord := range c.t.loopHdr {
+			if ord != k {
+				continue
+			}
+			for _, ins := range hb.Instrs {
+				if phi, ok := ins.(*ssa.Phi); ok && phi.Comment == "rangeindex" {
+					if hb == c.env.hdr && c.env.phiOv != nil {
+						if ov, ok := c.env.phiOv[phi]; ok {
+							return intSV(fmt.Sprintf("(+ %s 1)", ov[0]))
+						}
+					}
+					if _, defd := c.t.val[phi]; !defd {
+						c.fail("loop %d is not entered yet at this point", k)
+					}
+					return intSV(fmt.Sprintf("(+ %s 1)", c.t.vals(phi)[0]))
+				}
+			}
+		}
+		c.fail("no range loop %d", k)
+	case "at":
+		// at(r, "pkg/path.T"): the pointer to the object with reference r of allocation type T
+		need(2)
+		r := c.rv1(c.eval(args[0]))
+		ty := c.typeOfArg(args[1])
+		return &sv{sort: "loc", ty: types.NewPointer(ty), terms: []string{fmt.Sprintf("(mkloc %d %s 0)", c.t.eng.tag(ty), r)}}
 	case "isfunc":
 		// isfunc(v, "<ssa function name>"): the func value (or the func boxed in interface v) is that function/closure
 		need(2)
@@ -1246,7 +1308,27 @@ func (c *evalCtx) quant(kind string, args []ast.Expr) *sv {
 		ne.vars[id.Name] = intSV(qv)
 		rangeC = fmt.Sprintf("(and (<= %s %s) (< %s %s))", lo, qv, qv, hi)
 	}
+	var wf []string
+	nc.wf = &wf
 	body := nc.rv1(nc.eval(args[3]))
+	if len(wf) > 0 && c.mode != 0 {
+		w := "(and " + strings.Join(uniq(wf), " ") + ")"
+		usable := (c.mode > 0) == (kind == "forall")
+		if kind == "forall" {
+			if usable {
+				body = fmt.Sprintf("(and %s %s)", w, body)
+			} else {
+				body = fmt.Sprintf("(=> %s %s)", w, body)
+			}
+		} else {
+			// exists: used (assumed) -> the witness is well typed; to be proved -> may assume it
+			if c.mode > 0 {
+				body = fmt.Sprintf("(and %s %s)", w, body)
+			} else {
+				body = fmt.Sprintf("(and (=> %s %s) true)", w, body)
+			}
+		}
+	}
 	pat := ""
 	if anchored {
 		pat = pattern
